@@ -10,7 +10,7 @@
    rp or by a stored manifest that a tag reaches through manifest / subject references. *)
 From Coq Require Import String.
 From OCI Require Import Model.Mem Model.Immutable Proofs.FilterSelect Proofs.MemInv
-  Proofs.MemImmutable Proofs.Immutable Proofs.ImmutableMem.
+  Proofs.MemImmutable Proofs.MemTagKids Proofs.Immutable Proofs.ImmutableMem.
 
 (* ------------------------------ ReadOnly ------------------------------------------- *)
 
@@ -221,6 +221,26 @@ Theorem C14_refers_to_fuel : forall di dx rp d,
   acyclic di dx rp -> tagged_refers_to di dx rp d <> OutOfFuel.
 Proof. exact tagged_refers_to_fuel. Qed.
 Print Assumptions C14_refers_to_fuel.
+
+(* Immutable-tags mode, at every moment of every history (hence of every interleaving of a
+   concurrent execution): whatever a tagged manifest names directly and the registry insists on
+   at push time - the layers and the config of a tagged image, the entries of a tagged index - is
+   stored.  Not only "stays stored once seen": a tag bound in the middle of a history, or by a
+   goroutine racing a delete, has all its direct references in place.  (Subjects may dangle;
+   deeper levels are what C14_tagged_closure_retrievable keeps from the moment they are there.) *)
+Theorem C14_tagged_direct_refs_stored : forall hash vd vr vt di dx cfg,
+  immutable_tags cfg = true -> (forall a b, hash a = hash b -> a = b) ->
+  forall h r t de b rs k cd,
+  let st := final (step hash vd vr vt di dx cfg) init h in
+  itag st r t = Some de -> iman st r (d_digest de) = Some b ->
+  manifest_refs di dx (b_media b) (b_data b) = Some rs -> In (k, cd) rs ->
+  match k with
+  | KBlob => iblob st r (d_digest cd) <> None
+  | KManifest => iman st r (d_digest cd) <> None
+  | KSubject => True
+  end.
+Proof. exact tagged_direct_refs_stored. Qed.
+Print Assumptions C14_tagged_direct_refs_stored.
 
 (* Concurrency clause.  Every operation of the registry is one atomic step (one critical
    section under Registry.mu: that is property C08's generated lock table, not proved here),
